@@ -98,14 +98,14 @@ def design_checks(ctx, nq, canonical):
         vlib.log("model-level lasso for C10_Terminates (prediction, executed on the real code below)")
         ctx.stage("model-asis-counterexample", property="C10_Terminates", kind="lasso (non-terminating queue walk)",
                   states=n, scenario=("par=%s jobq=%s" % lasso[0]) if lasso else "")
-        ctx.cov["states"] += n
+        ctx.add("states", n)
     if r is not None and not r.ok and r.kind == "temporal" and r.violated in ("C10_Terminates", "temporal"):
         n = r.distinct or 0
         lasso = re.findall(r"scn = \[ par \|-> (\[[^\]]*\]).*?jobq \|-> (\"[^\"]*\")", r.out, re.S)
         vlib.log("model-level lasso for C10_Terminates (prediction, executed on the real code below)")
         ctx.stage("model-asis-counterexample", property="C10_Terminates", kind="lasso (non-terminating queue walk)",
                   states=n, scenario=("par=%s jobq=%s" % lasso[0]) if lasso else "")
-        ctx.cov["states"] += n
+        ctx.add("states", n)
         r = None
     predicted = r is None
     if r is not None:
@@ -270,8 +270,8 @@ def validate(ctx, trace):
         raise vlib.Infra("specification drift: %s fails on %d scenario(s), first: %s" % (inv, len(drift), json.dumps(sc)[:2500]))
     if drift:
         ctx.stage("drift-monitor-failures", count=len(drift), first="%s %s" % (drift[0][0], drift[0][1][0]["sig"]))
-    ctx.cov["traces_validated_against_impl"] += len(spans)
-    ctx.cov["trace_events_validated"] += len(evs) - len(spans)
+    ctx.add("traces_validated_against_impl", len(spans))
+    ctx.add("trace_events_validated", len(evs) - len(spans))
 
 
 def run(ctx):
